@@ -149,6 +149,7 @@ def check_tree(t, shape, names, maxcomp, only=None, kind="user"):
 
     m = tree.Model.from_shape(shape)
     sep = "/"
+    names0 = names
     if kind == "tuplenode":
         import collections
 
@@ -159,6 +160,13 @@ def check_tree(t, shape, names, maxcomp, only=None, kind="user"):
                 self.name = name
             _SEPCLS["tuple"] = type("TupleNode", (base, anytree.NodeMixin), {"__new__": lambda c, name: base.__new__(c, "entry", 0), "__init__": init})
         nodes = tree.build(m, lambda i, name: _SEPCLS["tuple"](name), "topdown", names=list(names))
+    elif kind == "falsyvalues":
+        # name values that are not strings and falsy: matched through their str() like any other value
+        vals = [{"a": 0, "A": False, "b": 0.0}.get(x) for x in names]
+        nodes = tree.build(m, tree.default_factory("user"), "topdown", names=list(names))
+        for nd, v in zip(nodes, vals):
+            nd.name = v
+        names = tuple(str(v) for v in vals)
     elif kind.startswith("sep:"):
         sep = kind[4:]
         nodes = tree.build(m, _sep_factory(sep), "topdown", names=list(names))
@@ -167,7 +175,7 @@ def check_tree(t, shape, names, maxcomp, only=None, kind="user"):
     idm = tree.IdMap(nodes)
     pats = patterns_for(names, sep, maxcomp) if maxcomp <= 3 else patterns_for(names, sep, maxcomp, COMPS_DEEP)
     res = {(ic, rx): anytree.Resolver("name", ignorecase=ic, relax=rx) for ic in (False, True) for rx in (False, True)}
-    ctx = {"shape": shape, "names": list(names), "kind": kind}
+    ctx = {"shape": shape, "names": list(names0), "kind": kind}
     if RECONF[0]:
         res = Reconfigured(anytree, "name", nodes[0])
         ctx["reconfigured"] = True
@@ -424,7 +432,7 @@ def plan(tier):
                 if tier == "thorough" or len(set(names)) == 1 or n <= 2:
                     items.append((s, names, 4))
     # node classes with their own truth value / value semantics
-    for kind in ("falsy", "eqhash", "falsylight", "norepr", "sep:::", "sep:|", "sep:->", "tuplenode"):
+    for kind in ("falsy", "eqhash", "falsylight", "norepr", "sep:::", "sep:|", "sep:->", "tuplenode", "falsyvalues"):
         for n in range(1, 4 if tier == "quick" else 5):
             for s in tree.plane_trees(n):
                 for names in itertools.product(("a", "A", "b"), repeat=n):
